@@ -12,6 +12,7 @@ import (
 	"github.com/hujm2023/go-sms-protocol/cmpp/cmpp20"
 	"github.com/hujm2023/go-sms-protocol/codec"
 	"github.com/hujm2023/go-sms-protocol/datacoding"
+	"github.com/hujm2023/go-sms-protocol/datacoding/gsm7encoding"
 	"github.com/hujm2023/go-sms-protocol/packet"
 	"github.com/hujm2023/go-sms-protocol/smgp"
 	"github.com/hujm2023/go-sms-protocol/smgp/smgp30"
@@ -32,6 +33,8 @@ type ledgerEntry struct {
 	desc  string
 	opIdx int
 	check func() string // "" = still equal to its snapshot
+	// release: the caller is done with this result and reuses its memory (overwrites every octet it was given)
+	release func()
 }
 
 type history struct {
@@ -67,7 +70,7 @@ func (h *history) keepBytes(desc string, live []byte) {
 			return fmt.Sprintf("bytes changed: now %s, were %s", hx(live), hx(snap))
 		}
 		return ""
-	})
+	}, func() { scribble(live[:cap(live)]) })
 }
 
 func (h *history) keepParts(desc string, live [][]byte) {
@@ -80,7 +83,7 @@ func (h *history) keepParts(desc string, live [][]byte) {
 				return fmt.Sprintf("bytes changed: now %s, were %s", hx(part), hx(snap))
 			}
 			return ""
-		})
+		}, func() { scribble(part[:cap(part)]) })
 	}
 	for i := range live {
 		if spare := live[i][len(live[i]):cap(live[i])]; len(spare) > 0 {
@@ -107,7 +110,7 @@ func (h *history) keepPDU(desc string, t *pdus.Type, live sms.PDU) {
 			return fmt.Sprintf("decoded PDU changed after the fact: %v", d)
 		}
 		return ""
-	})
+	}, func() { scribbleDeep(reflect.ValueOf(live)) })
 }
 
 // keepFieldValues keeps the slice-typed field VALUES of a decoded PDU (the slice headers as the caller would hold
@@ -144,7 +147,7 @@ func (h *history) keepTLVs(desc string, live any) {
 			return fmt.Sprintf("optional parameters changed after the fact: now %s, were %s", trunc200(now), trunc200(snap))
 		}
 		return ""
-	})
+	}, func() { scribbleDeep(reflect.ValueOf(live)) })
 }
 
 func trunc200(s string) string {
@@ -154,10 +157,64 @@ func trunc200(s string) string {
 	return s
 }
 
-func (h *history) add(desc string, check func() string) {
-	h.ledger = append(h.ledger, ledgerEntry{desc: desc, opIdx: h.ops, check: check})
+func (h *history) add(desc string, check func() string, release ...func()) {
+	e := ledgerEntry{desc: desc, opIdx: h.ops, check: check}
+	if len(release) > 0 {
+		e.release = release[0]
+	}
+	h.ledger = append(h.ledger, e)
 	if len(h.ledger) > 64 {
+		for _, old := range h.ledger[:len(h.ledger)-64] {
+			if old.release != nil {
+				old.release()
+			}
+		}
 		h.ledger = h.ledger[len(h.ledger)-64:]
+	}
+}
+
+// releaseSome: the caller finishes with some earlier results before the next call and overwrites them
+// (they are its own memory); results it still holds must not notice.
+func (h *history) releaseSome() {
+	for n := h.r.Intn(3); n > 0 && len(h.ledger) > 0; n-- {
+		i := h.r.Intn(len(h.ledger))
+		if e := h.ledger[i]; e.release != nil {
+			e.release()
+			h.cover("caller-overwrote/" + sigOf(e.desc))
+		}
+		h.ledger = append(h.ledger[:i:i], h.ledger[i+1:]...)
+	}
+}
+
+// scribbleDeep overwrites every octet reachable through byte slices of v (struct fields, map values, slices).
+func scribbleDeep(v reflect.Value) {
+	switch v.Kind() {
+	case reflect.Ptr, reflect.Interface:
+		if !v.IsNil() {
+			scribbleDeep(v.Elem())
+		}
+	case reflect.Struct:
+		for i := 0; i < v.NumField(); i++ {
+			scribbleDeep(v.Field(i))
+		}
+	case reflect.Map:
+		for it := v.MapRange(); it.Next(); {
+			scribbleDeep(it.Value())
+		}
+	case reflect.Slice:
+		if v.Type().Elem().Kind() == reflect.Uint8 {
+			scribble(v.Bytes())
+			return
+		}
+		for i := 0; i < v.Len(); i++ {
+			scribbleDeep(v.Index(i))
+		}
+	case reflect.Array:
+		if v.Type().Elem().Kind() != reflect.Uint8 {
+			for i := 0; i < v.Len(); i++ {
+				scribbleDeep(v.Index(i))
+			}
+		}
 	}
 }
 
@@ -198,7 +255,88 @@ func (h *history) step() bool {
 	var op string
 	ctx := context.Background()
 	pan, val, st := fw.Try(func() {
-		switch k := r.Intn(18); k {
+		switch k := r.Intn(19); k {
+		case 18: // octet-level helpers called on a WINDOW of a larger caller buffer (a segment of a septet run, a frame
+			// inside a receive buffer): what lies behind the window is the caller's and must stay as it is
+			op = "helpers-on-a-window"
+			n := r.Pick(7, 15, 23, 6, 8, 1, 31, 39, 152, 153, 47, r.Range(0, 64))
+			septets := make([]byte, n)
+			for i := range septets {
+				septets[i] = byte(r.Intn(128))
+				if septets[i] == 0x1B {
+					septets[i] = 0x41
+				}
+			}
+			for _, x := range []struct {
+				name string
+				f    func(in []byte) []byte
+			}{
+				{"gsm7encoding.Pack", func(in []byte) []byte { return gsm7encoding.Pack(in) }},
+				{"gsm7encoding.Unpack", func(in []byte) []byte { return gsm7encoding.Unpack(in) }},
+				{"gsm7encoding.Decode", func(in []byte) []byte {
+					b, err := gsm7encoding.Decode(in)
+					if err != nil {
+						return nil
+					}
+					return b
+				}},
+				{"gsm7encoding.ValidateGSM7Buffer", func(in []byte) []byte { return gsm7encoding.ValidateGSM7Buffer(in) }},
+				{"GSM7Packed.Decode", func(in []byte) []byte {
+					b, err := datacoding.GSM7Packed(in).Decode()
+					if err != nil {
+						return nil
+					}
+					return b
+				}},
+				{"GSM7Unpacked.Decode", func(in []byte) []byte {
+					b, err := datacoding.GSM7Unpacked(in).Decode()
+					if err != nil {
+						return nil
+					}
+					return b
+				}},
+				{"GSM7Unpacked.Encode", func(in []byte) []byte {
+					b, err := datacoding.GSM7Unpacked(in).Encode()
+					if err != nil {
+						return nil
+					}
+					return b
+				}},
+				{"GSM7Packed.Encode", func(in []byte) []byte {
+					b, err := datacoding.GSM7Packed(in).Encode()
+					if err != nil {
+						return nil
+					}
+					return b
+				}},
+				{"UCS2.Decode", func(in []byte) []byte {
+					b, err := datacoding.UCS2(in).Decode()
+					if err != nil {
+						return nil
+					}
+					return b
+				}},
+				{"Latin1.Decode", func(in []byte) []byte {
+					b, err := datacoding.Latin1(in).Decode()
+					if err != nil {
+						return nil
+					}
+					return b
+				}},
+			} {
+				view := spareView(septets)
+				tail := append([]byte(nil), view[len(view):cap(view)]...)
+				out := x.f(view)
+				if !bytes.Equal(view[len(view):cap(view)], tail) || !bytes.Equal(view, septets) {
+					h.fail("library-wrote-into-callers-buffer/"+x.name, "%s on a %d-octet window of a larger buffer: the caller's octets are now %s | %s, were %s | %s",
+						x.name, n, hx(view), hx(view[len(view):cap(view)]), hx(septets), hx(tail))
+					continue
+				}
+				if len(out) > 0 {
+					h.keepBytes(x.name+" (window)", out)
+				}
+				scribble(view[:cap(view)])
+			}
 		case 16: // the packet helpers (heartbeats, terminate): every call hands out bytes of its own
 			op = "helper-packets"
 			seq := r.U32()
@@ -445,7 +583,12 @@ func (h *history) step() bool {
 	}
 	h.cover("bigram/" + sigOf(h.prevOp) + ">" + sigOf(op))
 	h.prevOp = op
-	return h.audit(op)
+	ok := h.audit(op)
+	if ok && r.Chance(1, 3) {
+		h.releaseSome()
+		ok = h.audit(op + " + the caller overwriting results it is done with")
+	}
+	return ok
 }
 
 func runHistory(c *fw.Case, r *fw.Rng, n int, fail func(sig, format string, args ...any), cover func(string)) int {
